@@ -29,8 +29,11 @@ def ev(f, val):
     if cn == 'ExpressionReference':
         name = str(f.func)
         args = [ev(a, val) for a in f.arguments]
-        sort = 'B' if f.type.name == 'boolean' else 'I'
+        sort = 'B' if f.type.name == 'boolean' else ('I' if f.type.name == 'integer' else 'U:' + f.type.name)
         key = name if not args else (name, tuple(_key(a) for a in f.arguments))
+        mk = getattr(val, 'make', None)
+        if mk is not None:
+            return mk(f, args)
         if key not in val:
             raise KeyError("no valuation for atom %r" % (key,))
         return (sort, val[key])
